@@ -1,7 +1,8 @@
 // Contracts for src/optimizer.rs: the per-node pass functions (they are plain `fn(&mut Node, &Walk) -> PassAction`; the
 // tree walk that applies them recurses over ir::Node and is NOT under contract). Each contract is the side condition under
 // which the rewrite is an identity on any reasonable semantics.
-#[cfg(kani)]
+// (form_literal_bytes is compiled out under the utf16 feature, so is this module)
+#[cfg(all(kani, not(feature = "utf16")))]
 pub(crate) mod __verif {
     use super::*;
 
